@@ -470,7 +470,10 @@ func (c *Coordinator) assignNoScrapingTargets(
 			sd.scraping[hash] = status
 			assignNoScrapingTargetsTotal.WithLabelValues().Inc()
 		} else {
-			// no shard avaliable
+			// no shard avaliable, a target without series estimate still needs some space
+			if tarSp.isZero() {
+				tarSp.processSpace = 1
+			}
 			needSp.add(tarSp)
 		}
 	}
